@@ -1,4 +1,5 @@
-import IncrVerif.Proofs.ExpertH53
+import IncrVerif.Proofs.ExpertH65
+import IncrVerif.Proofs.ExpertH54
 /-!
 # C14 for whole histories — expert nodes with dynamically added dependencies (fragment X1)
 
@@ -70,11 +71,49 @@ re-links an expert node inside one stabilise after one of its children has alrea
 callbacks with the same value in one stabilise (`finding_2.hist`).  Also: `addDep … cb` on a necessary expert node
 fires the callback at the `addDep` action itself when the child has a value.
 
-ASSUMED / NOT PROVED.  Partial correctness throughout (no "never panics" theorem for X1; a cyclic `addDep` on a
-necessary node panics with `cyclic`, on an unnecessary node it silently records the cycle — excluded by `AddDepOK`).
-E2 (the callback discipline / "cbsum" closures: `slots`, exactness of callbacks on the event log) and E3 (dependencies
-edited from inside node functions during the drain: `xAdd`/`xRm`/`xSel`/`xStale`/`xInval`) are NOT proved here; see
-the header of the delivery notes.  `make_stale` (only reachable from node functions) is therefore not covered.
+E2 — THE CALLBACK DISCIPLINE (`Proofs/ExpertH55…65`), proved for the same fragment X1 (expert nodes whose dependencies
+were added with `cb` keep `slots`; the "sum" closures of X1 ignore them, so this is a statement about the bookkeeping).
+`ExpertH.Good env s er`: for every dependency of the record that has a callback, the stored slot is the CURRENT value of
+the dependency's child (absent iff the child has no value).  `ExpertH.SlotInv env s`: dependency names are pairwise
+distinct and below `nextDep`; the "fire all callbacks" flag is down only on necessary nodes; every expert node whose
+flag is down OR that is not stale is `Good`.
+* `slots_stabilise`, `slots_action`, `slots_history`, `history_every_stabilise_slots`: `SlotInv` is kept by `stabilise`
+  (through `addNewObservers`, `unlinkDisallowedObservers`, every `recomputeOne` of the drain — `ExpertH.mcv_slots`: the
+  parent walk of `maybe_change_value_manual` delivers the new value to the callback of EVERY edge, of every flag-down
+  expert parent, that has the changed node as child, also several edges on one child —, `stabiliseEnd`), by every action
+  of X1 (`addDep … cb` on a necessary expert node: the link-time callback stores the child's value if it has one) and
+  hence by whole histories; after every `stabilise` (`ExpertH.SlotsCurrent`): for every NECESSARY expert node and every
+  dependency with a callback the child has a value `v` and the slot holds `v` — so a closure that sums the slots
+  ("cbsum") sees exactly the current values of its callback dependencies.
+* Outside recomputes a slot changes only by a delivery of the current value of the child of the dependency it is named
+  after, and only on a record whose flag is down (`ExpertH.SR`, ladder `PresR.*`).
+* NOT PROVED for E2: (i) "cbsum" closures as node functions in whole histories (the VALUE theorem above is for closures
+  that ignore the slots; with `SlotInv` in the drain invariant the same proof would go through for experts all of whose
+  dependencies have callbacks — not done); (ii) EXACTNESS of the callback events on the log — and as literally stated
+  it is FALSE, see FINDINGS.
+
+E3 — DEPENDENCIES EDITED FROM INSIDE NODE FUNCTIONS (`Proofs/ExpertH54.lean`, pure logic over explicit invariants, as
+`Props/C03Order.lean` did for binds with `StepL`).  `Drv.StepD env X n v ch r s s'`: the contract of a DRIVER step —
+node `n` (a child of every rewired node `x`, `X x`: `assertRunningIsChild`) runs, computes `v`, and rewires the nodes
+`x`: their child lists change, children become necessary/unnecessary, heights are adjusted, `x` is stale afterwards and
+not stamped in this round; no node is created or invalidated; the new structure/heap are given wholesale (`BGraph`,
+`HeapInv`, `qstale'`, `pending'`), every node `≠ n` keeps validity, value, `changedAt`, and — unless rewired — kind,
+stamp and children.  States are states whose valid nodes have `BindH.BKind` kinds (in the application: virtual states).
+* `driver_step_keeps` (`stepD_inv`): `BindH.DInv env s (some n)` + `StepD` ⟹ `BindH.DInv env s' r` — the drain invariant
+  with a CHANGING graph (consistency of every non-stale node, "nothing above a stale node has run in this round" through
+  the edges of the NEW graph, nothing at or below the current node queued) survives a driver step.
+* `expert_after_drivers`: when a node `x` is about to run under `DInv`, every child of `x` — in particular every driver —
+  is necessary, not queued, not stale and carries its defining value: the expert node runs after all its drivers.
+* `drained_values`: with `DInv … none` and an empty heap every necessary node carries `BindH.evalB` in the FINAL graph:
+  the expert's final value is its function of its final dependencies.
+* NOT PROVED for E3: that a run of the model's `recomputeOne` on a node with `xAdd`/`xRm`/`xSel`/`xStale` effects
+  satisfies `StepD` for the virtual states (it needs the unlinking analogue of `addDep_necessary` inside the drain and a
+  virtualisation of effectful `map` nodes), `xInval`, and therefore no whole-history theorem with drivers; `make_stale`
+  is only reachable from node functions and is covered only by the local facts of `Props/C14.lean`.
+
+ASSUMED / NOT PROVED (all parts).  Partial correctness throughout (no "never panics" theorem for X1; a cyclic `addDep` on
+a necessary node panics with `cyclic`, on an unnecessary node it silently records the cycle — excluded by `AddDepOK`).
+No top-level removal exists in the action language.
 -/
 namespace IncrVerif.Props.C14History
 open IncrVerif.Engine IncrVerif.Driver IncrVerif.Proofs IncrVerif.Proofs.Sched IncrVerif.Proofs.ExpertH
@@ -220,6 +259,72 @@ theorem runOK_of_check {env : Env} {mapOK xOK : Nat → Bool}
     (h : runOKB env mapOK xOK acts s tk = true) : RunOK env acts s tk :=
   runOKB_sound hm hx acts s tk h
 
+/-! ## E2: the callback discipline -/
+
+/-- `stabilise` keeps the callback discipline -/
+theorem slots_stabilise {env : Env} {rk : Nat → Nat} {fuel : Nat} {s s' : State} (Q : QInvX env rk s)
+    (L : SlotInv env s) (h : (stabilise env fuel).run.run s = (.ok (), s')) :
+    SlotInv env s' ∧ SlotsCurrent env s' := by
+  have L' := stabilise_slots Q L h
+  exact ⟨L', slotsCurrent_of_stabilised (stabiliseX Q h) L'⟩
+
+/-- one `recomputeOne` of the drain keeps the callback discipline (`U`: the unnecessary nodes have not been recomputed in
+this round and the non-stale ones are consistent — part of what `stabilise` knows when the drain starts) -/
+theorem slots_recomputeOne {env : Env} {fuel n : Nat} {s s' : State} {r : Option Nat}
+    (D : DInvX env s (some n)) (U : UnnecOK (virtEnv env) (virt s)) (L : SlotInv env s)
+    (h : (recomputeOne env fuel n).run.run s = (.ok r, s')) : SlotInv env s' :=
+  recomputeOneX_slots D U L h
+
+/-- every action of fragment X1 keeps the callback discipline -/
+theorem slots_action {env : Env} {rk : Nat → Nat} {s s' : State} {a : Action} {tk : Array Nat}
+    {r : String × Array Nat} (Q : QInvX env rk s) (L : SlotInv env s) (ha : XActionOK env s a)
+    (h : (stepAction env a tk).run.run s = (.ok r, s')) : SlotInv env s' :=
+  step_x_slots Q L ha h
+
+theorem slots_history {env : Env} {N : Nat} {d : Bool} {acts : List Action} {s : State} {tk : Array Nat}
+    (ha : RunOK env acts (State.init N d) #[])
+    (h : runActions env acts (State.init N d) #[] = .ok (s, tk)) : ∃ rk, QInvX env rk s ∧ SlotInv env s :=
+  history_slots ha h
+
+/-- **E2 for whole histories.**  At every `stabilise` of a history of fragment X1: afterwards, for every necessary
+expert node and every dependency with a callback, the stored slot is the current value of the dependency's child. -/
+theorem history_every_stabilise_slots {env : Env} {N : Nat} {d : Bool} {as bs : List Action} {s : State}
+    {tk : Array Nat} (ha : RunOK env (as ++ Action.stabilise :: bs) (State.init N d) #[])
+    (h : runActions env (as ++ Action.stabilise :: bs) (State.init N d) #[] = .ok (s, tk)) :
+    ∃ s1 tk1 s2 rk1, runActions env as (State.init N d) #[] = .ok (s1, tk1) ∧ QInvX env rk1 s1 ∧ SlotInv env s1 ∧
+      (stabilise env fuelDefault).run.run s1 = (.ok (), s2) ∧ StabilisedX env rk1 fuelDefault s1 s2 ∧
+      SlotInv env s2 ∧ SlotsCurrent env s2 ∧ ReadsOKX env s2 ∧
+      runActions env bs s2 tk1 = .ok (s, tk) :=
+  history_stabilise_slots ha h
+
+/-! ## E3: driver steps (pure logic over explicit invariants) -/
+
+/-- **a driver step keeps the drain invariant** (graph changing during the drain) -/
+theorem driver_step_keeps {env : Env} {X : Nat → Prop} {n : Nat} {v : Val} {ch : Bool} {r : Option Nat}
+    {s s' : State} (I : BindH.DInv env s (some n)) (R : Drv.StepD env X n v ch r s s') : BindH.DInv env s' r :=
+  Drv.stepD_inv I R
+
+/-- **the expert node runs after all its drivers**: when `x` is about to run every child of `x` is necessary, not
+queued, not stale, and carries its defining value -/
+theorem expert_after_drivers {env : Env} {x : Nat} {s : State} (I : BindH.DInv env s (some x)) :
+    ∀ c, c ∈ s.children x → s.isNecessary c = true ∧ (s.nodeD c).inRch = false ∧ s.isStale c = false ∧
+      BindH.ConsistentB env s c :=
+  fun c hc => ⟨(Drv.children_settled I c hc).1, (Drv.children_settled I c hc).2.1,
+    (Drv.children_settled I c hc).2.2, Drv.children_consistent I c hc⟩
+
+/-- the stamp clause of the contract holds when the rewiring leaves the stamp of `x` alone -/
+theorem driver_parent_fresh {env : Env} {s : State} {n x : Nat} (I : BindH.DInv env s (some n))
+    (h : n ∈ s.children x) : (s.nodeD x).recomputedAt < s.stabNum := Drv.parent_fresh I h
+
+/-- **the final values**: drain invariant and empty heap ⟹ every necessary node carries the from-scratch value of the
+FINAL graph -/
+theorem drained_values {env : Env} {s : State} (I : BindH.DInv env s none) (he : s.rch.length = 0)
+    (n : Nat) (hn : s.isNecessary n = true) (k : Nat) (hk : (s.nodeD n).height.toNat < k) :
+    (s.nodeD n).valid = true ∧ s.isStale n = false ∧ s.value env n = BindH.evalB env s k n ∧
+      (BindH.evalB env s k n).isSome = true := by
+  obtain ⟨h1, h2, -, h4, h5⟩ := BindH.drained_valuesB I he n hn k hk
+  exact ⟨h1, h2, h4, h5⟩
+
 /-! ## non-vacuity -/
 
 /-- `fn f0 lin 7 1 1` (`1 + x mod 7`), `fn f1 lin 7 0 2` (`2x mod 7`), the harness' expert closures -/
@@ -335,5 +440,26 @@ example : readAfter exEnvX (exHistX.take 7) 0 = some (.int 3) ∧ readAfter exEn
   ⟨by decide +kernel, by decide +kernel, by decide +kernel, by decide +kernel, by decide +kernel,
     by decide +kernel, by decide +kernel, by decide +kernel, by decide +kernel, by decide +kernel,
     by decide +kernel⟩
+
+/-- the slots of expert record `e` after the history -/
+def slotsAfter (env : Env) (acts : List Action) (e : Nat) : List (Nat × Val) :=
+  match runActions env acts (State.init 128 true) #[] with
+  | .ok (s, _) => ((s.experts[e]?).map ExpertRec.slots).getD []
+  | .error _ => []
+
+set_option maxRecDepth 100000 in
+/-- E2: the dependency `d1` (on the var node `n1`) was added with a callback to the NECESSARY expert node; `n1` had never
+been computed, so nothing is stored at the `addDep` action; the next `stabilise` computes `n1 = 3` and the callback
+stores it; the slot holds 3 ever after -/
+example : slotsAfter exEnvX (exHistX.take 8) 0 = [] ∧ slotsAfter exEnvX (exHistX.take 9) 0 = [(1, .int 3)] ∧
+    slotsAfter exEnvX exHistX 0 = [(1, .int 3)] :=
+  ⟨by decide +kernel, by decide +kernel, by decide +kernel⟩
+
+/-- E2 for the example: the final state satisfies the callback discipline -/
+theorem exHistX_slots : ∃ s tk rk, runActions exEnvX exHistX (State.init 128 true) #[] = .ok (s, tk) ∧
+    QInvX exEnvX rk s ∧ SlotInv exEnvX s := by
+  obtain ⟨s, tk, rk, h, -⟩ := exHistX_inv
+  obtain ⟨rk', Q, L⟩ := slots_history exHistX_ok h
+  exact ⟨s, tk, rk', h, Q, L⟩
 
 end IncrVerif.Props.C14History
